@@ -378,6 +378,39 @@ fn bombs() -> Vec<(String, Vec<u8>)> {
         out.push((format!("maximal invalid-UTF-8 text values (~{} KiB)", b.len() / 1024), b));
         n *= 2;
     }
+    // collections nested d deep where EVERY level's member also has a sibling value (c = {m = [{m = [{...}, 2]}, 2]}),
+    // properly closed: anything that handles a set by visiting each element more than once multiplies per level
+    for d in [4usize, 10, 20, 127] {
+        let mut b = TOK_HEADER.to_vec();
+        b.extend_from_slice(tok_bytes(0));
+        b.extend_from_slice(tok_bytes(9));
+        for _ in 0..d {
+            b.extend_from_slice(tok_bytes(11));
+            b.extend_from_slice(tok_bytes(10));
+        }
+        for _ in 0..d {
+            b.extend_from_slice(tok_bytes(13));
+            b.extend_from_slice(tok_bytes(7));
+        }
+        b.extend_from_slice(tok_bytes(13));
+        b.push(3);
+        out.push((format!("collections nested {} deep, a sibling value at every level", d), b));
+        // the same with the sibling BEFORE the nested collection (m = [2, {...}])
+        let mut b = TOK_HEADER.to_vec();
+        b.extend_from_slice(tok_bytes(0));
+        b.extend_from_slice(tok_bytes(9));
+        for _ in 0..d {
+            b.extend_from_slice(tok_bytes(11));
+            b.extend_from_slice(tok_bytes(7));
+            b.extend_from_slice(tok_bytes(10));
+        }
+        for _ in 0..d {
+            b.extend_from_slice(tok_bytes(13));
+        }
+        b.extend_from_slice(tok_bytes(13));
+        b.push(3);
+        out.push((format!("collections nested {} deep, a sibling value before every level", d), b));
+    }
     out
 }
 
@@ -781,7 +814,7 @@ pub fn run(ctx: &Ctx) -> ! {
     let mut rep = Report::new(
         ctx,
         "exploration",
-        "(a) every byte string of <= 2 (3) bytes after a valid header; (b) value tag 0x00-0xff x value length {0..16, 0xffff short body, 0xffff full body} x fill {00, ff, counting} in three contexts (named attribute, additional value, collection member) and through the stand-alone IppValue::parse; (c) every (language-length, text-length) pair of {0..6, 0xfffe, 0xffff}^2 against bodies of 0..8 octets for both with-language tags; (d) every sequence of <= 5 (6) tokens of the 16-token wire alphabet; (e) grammar-aware mutations of every corpus message (every length field <- 0 / -1 / +1 / 0xffff / 0x8000, truncation at every offset, deletion and duplication of every token, every tag byte <- every byte), thorough: + every token-boundary splice of the short corpus messages; (f) structural bombs doubling up to 1 MiB (nesting with/without member names, closed/unclosed/truncated, set width, attribute count, group count, member count, maximal values); (g) EVERY periodic family p.u^n.v^n over the EXTENDED 20-token alphabet (named and unnamed variant of every token class; |p| <= 1, |u| <= 2, |v| <= 1: 185 220 families; plus |u| = 3 without prefix: 168 000) at n = 400, screened for results nested deeper than 300 levels (iterative measure), every candidate re-run at ~1 MiB in a process of its own. Every input through IppParser and AsyncIppParser; every Ok result is displayed, re-encoded, traversed, cloned and dropped. All in worker PROCESSES (2 MiB thread stack): panic (caught), death by signal and stalled heartbeat are violations, confirmed by re-running the single case alone. distinct = case index per family; non-trivial = the parser returned Ok and the result was exercised",
+        "(a) every byte string of <= 2 (3) bytes after a valid header; (b) value tag 0x00-0xff x value length {0..16, 0xffff short body, 0xffff full body} x fill {00, ff, counting} in three contexts (named attribute, additional value, collection member) and through the stand-alone IppValue::parse; (c) every (language-length, text-length) pair of {0..6, 0xfffe, 0xffff}^2 against bodies of 0..8 octets for both with-language tags; (d) every sequence of <= 5 (6) tokens of the 16-token wire alphabet; (e) grammar-aware mutations of every corpus message (every length field <- 0 / -1 / +1 / 0xffff / 0x8000, truncation at every offset, deletion and duplication of every token, every tag byte <- every byte), thorough: + every token-boundary splice of the short corpus messages; (f) structural bombs doubling up to 1 MiB (nesting with/without member names, closed/unclosed/truncated, set width, attribute count, group count, member count, maximal values; collections nested 4, 10, 20 and 127 deep with a sibling value at every level); (g) EVERY periodic family p.u^n.v^n over the EXTENDED 20-token alphabet (named and unnamed variant of every token class; |p| <= 1, |u| <= 2, |v| <= 1: 185 220 families; plus |u| = 3 without prefix: 168 000) at n = 400, screened for results nested deeper than 300 levels (iterative measure), every candidate re-run at ~1 MiB in a process of its own. Every input through IppParser and AsyncIppParser; every Ok result is displayed, re-encoded, traversed, cloned and dropped. All in worker PROCESSES (2 MiB thread stack): panic (caught), death by signal and stalled heartbeat are violations, confirmed by re-running the single case alone. distinct = case index per family; non-trivial = the parser returned Ok and the result was exercised",
     );
     rep.assume("worker threads use a 2 MiB stack (Rust's default for spawned threads): deeper recursion than that is an abort a user would see");
     let space = Space::new(ctx.tier);
